@@ -9,7 +9,8 @@ case = {"keep": int, "cycleP": ticks, "fsize": bytes, "flushP": ticks (>= 8), "r
                                        same prefix; only the last one may crash)
         "crash": None | k              the last process dies (os._exit) just before its k-th op
         "crash_rename": None | n       ... or inside its n-th os.rename call (before / after it: "when")
-        "big": bool                    long record payloads (forces Python's buffer to spill)}
+        "big": bool                    long record payloads (forces Python's buffer to spill)
+        "fail_rename": None | N        fault injection: the N-th os.rename call of the run raises OSError}
 op   = ["tick", d] | [ctl, n, wants]   ctl = start|run|stop; n = elements queued on a streak log before the
                                        control; wants[j] = update the share of update/change log j first
 time unit = 1/8 s.
@@ -135,6 +136,11 @@ class Spy(object):
         self.rot_at = [[] for _ in range(nlogs)]   # stream position at every rename of that log's main file
         self.cycles = []
         self.renames = 0
+        self.fail_rename = None        # the N-th os.rename call raises OSError (injected fault)
+        self.overwrites = []           # renames that overwrote a NON-oldest copy holding records: [log, name, ids]
+        self.legit_dropped = None      # per log: highest record id discarded by overwriting the OLDEST copy
+        self.rules = []
+        self.keep = 0
         self.crash_rename = None
         self.when = "before"
         self.side = None
@@ -227,6 +233,21 @@ def install_spies(spy):
         spy.renames += 1
         if spy.crash_rename is not None and spy.renames == spy.crash_rename and spy.when == "before":
             os._exit(0)
+        if spy.fail_rename is not None and spy.renames == spy.fail_rename:
+            raise OSError(13, "injected rename failure", a)
+        jb, _ = which(b)
+        if jb is not None and os.path.exists(a) and os.path.exists(b):
+            try:
+                with open(b) as f:
+                    lost = [it[1] for it in parse(f.read(), spy.rules[jb]) if it != "H" and it[0] == "R"]
+            except Exception:
+                lost = []
+            nm = NAMES[spy.rules[jb]][1]
+            if os.path.basename(b) == "%s%02d.txt" % (nm, spy.keep):
+                if lost:
+                    spy.legit_dropped[jb] = max(spy.legit_dropped[jb], max(lost))
+            elif lost:
+                spy.overwrites.append([jb, os.path.basename(b), lost])
         real_rename(a, b)
         j, ismain = which(a)
         if ismain:
@@ -309,6 +330,10 @@ def run_case(case, workdir, child=False):
         shutil.rmtree(prefix, ignore_errors=True)
     rules = rules_of(case)
     spy = Spy(len(rules))
+    spy.rules = rules
+    spy.keep = case["keep"]
+    spy.legit_dropped = [-1] * len(rules)
+    spy.fail_rename = case.get("fail_rename")
     undo = install_spies(spy)
     pl = plan(case)
     try:
@@ -326,7 +351,8 @@ def run_case(case, workdir, child=False):
     finally:
         undo()
     return {"files": read_files(case, prefix), "sizes": sizes_of(pl), "hsz": HSZ, "nwritten": list(spy.nw),
-            "spy": {"flushed": spy.flushed, "cycles": spy.cycles, "rot_at": spy.rot_at}}
+            "spy": {"flushed": spy.flushed, "cycles": spy.cycles, "rot_at": spy.rot_at,
+                    "overwrites": spy.overwrites, "legit_dropped": spy.legit_dropped, "renames": spy.renames}}
 
 
 if __name__ == "__main__":
